@@ -16,6 +16,7 @@ from .core import SV, SC, SI, SB, zr, zc, Inconclusive, PathAbort
 
 
 TRACE = bool(__import__('os').environ.get('SYMX_TRACE'))
+USE_IDEAL = not __import__('os').environ.get('SYMX_NO_IDEAL')
 SOM_BLOWUP = 10 ** 8
 
 
@@ -220,17 +221,34 @@ class SymCtx(_Base):
         # polynomial identities: z3's rewriter in sum-of-monomials mode (blow-up limit lifted) rewrites lhs - rhs to 0 for most
         # obligations; what it cannot close (assumption-dependent goals, genuine differences) is left to the SMT solver under the
         # path condition and the assumptions, with the simplified difference as the goal
-        keep, kidx, closed = [], [], 0
+        keep, kidx, closed, keep_lr = [], [], 0, []
         t0 = __import__('time').time()
         for k, (l, r) in zip(idx, diffs):
             try:
                 z = z3.simplify(l - r, som=True, som_blowup=SOM_BLOWUP)
             except z3.Z3Exception:
-                keep.append(l != r); kidx.append(k); continue
+                keep.append(l != r); kidx.append(k); keep_lr.append(l - r); continue
             if z3.is_rational_value(z) and z.numerator_as_long() == 0:
                 closed += 1
                 continue
-            keep.append(z != 0); kidx.append(k)
+            keep.append(z != 0); kidx.append(k); keep_lr.append(l - r)
+        # goals that are polynomial consequences of the equality assumptions (LAPACK contracts): ideal-membership certificate found by
+        # reduction, checked by z3's rewriter (symx.ideal)
+        if keep and USE_IDEAL:
+            from . import ideal
+            try:
+                verdict = ideal.prove_zero(E, keep_lr, SOM_BLOWUP)
+                if verdict == 'infeasible':
+                    # the LAPACK contract contradicts the path condition (branches are pruned with the linear part of the assumptions only)
+                    raise core.PathAbort('infeasible path: a contract equation contradicts the path condition')
+                if verdict is True:
+                    self.stats.solver_s += __import__('time').time() - t0
+                    self.stats.queries += 1
+                    self.stats.unsat += 1
+                    self._sample(label, 'unsat: lhs - rhs is a polynomial combination of the equality assumptions (certificate checked by z3 simplify)', len(fx))
+                    return
+            except RecursionError:
+                pass
         self.stats.solver_s += __import__('time').time() - t0
         diffs, idx = keep, kidx
         if not diffs:
